@@ -1078,7 +1078,8 @@ fn deep_frames() -> Vec<(String, Event)> {
         for _ in 0..d {
             v = Value::Array(vec![v]);
         }
-        out.push((format!("tool_started args nested {d} arrays deep"), Event { id: "d".into(), session_id: "s".into(), timestamp_ms: 1, seq: 0, kind: EventKind::ToolStarted { tool_id: "t".into(), name: "n".into(), args: v, timeout_ms: None } }));
+        let beyond = if d > rip_kernel::MAX_PAYLOAD_NESTING { " [beyond the producers' bound]" } else { "" };
+        out.push((format!("tool_started args nested {d} arrays deep{beyond}"), Event { id: "d".into(), session_id: "s".into(), timestamp_ms: 1, seq: 0, kind: EventKind::ToolStarted { tool_id: "t".into(), name: "n".into(), args: v, timeout_ms: None } }));
     }
     out
 }
@@ -1113,7 +1114,11 @@ fn main() {
     let mut cases: Vec<DocCase> = vec![];
     for (label, ev) in handmade().into_iter().chain(deep_frames()) {
         let sns = label.contains("[skipped-if-none field]");
-        cases.push(DocCase { emitted: true, some_null_skipped: sns, doc_text: serde_json::to_string(&ev).unwrap(), label: format!("handmade: {label}"), variant: "handmade".into(), wellformed: true });
+        // hand-built frames whose payload nests deeper than rip_kernel::MAX_PAYLOAD_NESTING: no producer builds them
+        // any more (provider events, tool arguments and task arguments are bounded where they enter, /repo fix W2);
+        // they stay as codec cases (the model's depth guard, c03_depth_limit_refuted), not as frames the system emits
+        let beyond = label.contains("[beyond the producers' bound]");
+        cases.push(DocCase { emitted: !beyond, some_null_skipped: sns, doc_text: serde_json::to_string(&ev).unwrap(), label: format!("handmade: {label}"), variant: "handmade".into(), wellformed: true });
     }
     for (label, ev) in provider_frames(&mut r) {
         cases.push(DocCase { emitted: true, some_null_skipped: false, doc_text: serde_json::to_string(&ev).unwrap(), label, variant: "provider".into(), wellformed: true });
@@ -1211,7 +1216,11 @@ fn main() {
                     }
                 }
                 if let Some((what, class)) = &o.violation {
-                    res.oracle_violations.push(OracleViolation { case_id: i as i64, what: what.clone(), class: class.clone(), replay: replay.clone() });
+                    if !c.emitted && class.ends_with("_recursion_limit") && c.label.contains("[beyond the producers' bound]") {
+                        res.bump("handmade.deeper_than_the_producers_bound_unreadable_as_modelled");
+                    } else {
+                        res.oracle_violations.push(OracleViolation { case_id: i as i64, what: what.clone(), class: class.clone(), replay: replay.clone() });
+                    }
                 }
                 if doc.is_none() && c.doc_text.chars().count() > 3 * TEXT_LIMIT {
                     res.bump("doc.text_only_case_too_large_skipped");
